@@ -262,6 +262,7 @@ pub fn dispatch(cmd: &str, name: &str, arg: &str) -> Option<String> {
         });
     }
     if name.starts_with("connect.") { return dispatch_connect(cmd, name, arg); }
+    if name.starts_with("loopback.") { return dispatch_loopback(cmd, name, arg); }
     if !["conv", "deconv", "pool"].iter().any(|p| name.starts_with(p)) { return None; }
     std::panic::set_hook(Box::new(|_| {}));
     if cmd == "run" {
@@ -330,4 +331,83 @@ pub fn dispatch_connect(cmd: &str, name: &str, arg: &str) -> Option<String> {
         Ok(t) => format!("{{\"failed\":false,\"tried\":{}}}", t),
         Err((input, detail)) => format!("{{\"failed\":true,\"input\":{},\"detail\":{:?}}}", input, detail),
     })
+}
+
+// ------------------------------------------------------------------------------------------------ loop connections (C17)
+fn acc_of(a: usize) -> crate::feedback::Accumulation {
+    use crate::feedback::Accumulation::*;
+    match a { 0 => Add, 1 => Subtract, 2 => Multiply, 3 => Overwrite, _ => Mean }
+}
+fn post_of(net: &crate::network::Network, j: usize, x: &Tensor) -> Tensor {
+    match &net.layers[j] { crate::network::Layer::Dense(l) => l.forward(x).1, _ => panic!("dense layers only") }
+}
+fn bits(t: &Tensor) -> Vec<u32> { t.get_flat().iter().map(|v| if v.is_nan() { 0x7fc0_0000 } else { v.to_bits() }).collect() }
+/// the statement of C17 executed literally on an n-layer dense network (width 2, small integer weights): the value passed on
+/// after layer `outof` is the configured accumulation of the k+1 successive outputs; observed at Network::predict
+pub fn loopback_one(n: usize, into: usize, outof: usize, k: usize, inskips: bool, acc: usize, seed: u64) -> Result<(), String> {
+    let mut rng = Lcg(seed.wrapping_mul(2654435761).wrapping_add(12345));
+    let mut net = crate::network::Network::new(Shape::Single(2));
+    for j in 0..n { net.dense(2, if j % 2 == 0 { Activation::Linear } else { Activation::ReLU }, true, None); }
+    for layer in net.layers.iter_mut() {
+        if let crate::network::Layer::Dense(l) = layer {
+            l.weights = Tensor::double(vec![vec![rng.int(-1, 1), rng.int(-1, 2)], vec![rng.int(-1, 1), rng.int(-1, 1)]]);
+            l.bias = Some(Tensor::single(vec![rng.int(-1, 1), rng.int(-1, 1)]));
+        }
+    }
+    net.set_accumulation(crate::feedback::Accumulation::Add, acc_of(acc));
+    net.loopback(outof, into, k, std::sync::Arc::new(|x| 1.0 / x), inskips);
+    let x = Tensor::single(vec![rng.int(-2, 2), rng.int(1, 2)]);
+    let got = net.predict(&x);
+    // reference
+    let mut a = vec![x.clone()];
+    for j in 0..=outof { let y = post_of(&net, j, a.last().unwrap()); a.push(y); }
+    let y0 = a[outof + 1].clone();
+    let mut outs: Vec<Tensor> = Vec::new();
+    let mut prev = y0.clone();
+    for _ in 0..k {
+        let mut cur = prev.clone();
+        if inskips { cur.add_inplace(&a[into]); }
+        for j in into..=outof { cur = post_of(&net, j, &cur); }
+        outs.push(cur.clone());
+        prev = cur;
+    }
+    let mut passed = y0.clone();
+    match acc {
+        0 => for o in &outs { passed.add_inplace(o); },
+        1 => for o in &outs { passed.sub_inplace(o); },
+        2 => for o in &outs { passed.mul_inplace(o); },
+        3 => passed = outs.last().unwrap().clone(),
+        _ => { let refs: Vec<&Tensor> = outs.iter().collect(); passed.mean_inplace(&refs); }
+    }
+    for j in outof + 1..n { passed = post_of(&net, j, &passed); }
+    if bits(&got) != bits(&passed) {
+        return Err(format!("predict = {:?} but the accumulated repeated sub-network gives {:?}", got.get_flat(), passed.get_flat()));
+    }
+    Ok(())
+}
+pub fn dispatch_loopback(cmd: &str, name: &str, arg: &str) -> Option<String> {
+    if name != "loopback.forward" { return None; }
+    std::panic::set_hook(Box::new(|_| {}));
+    let fmt = |n: usize, into: usize, outof: usize, k: usize, s: bool, acc: usize, seed: u64|
+        format!("{{\"layers\":{},\"into\":{},\"outof\":{},\"iterations\":{},\"inskips\":{},\"accumulation\":{},\"seed\":{}}}", n, into, outof, k, s as usize, acc, seed);
+    let one = |n: usize, into: usize, outof: usize, k: usize, s: bool, acc: usize, seed: u64| -> Result<(), String> {
+        match std::panic::catch_unwind(|| loopback_one(n, into, outof, k, s, acc, seed)) { Ok(r) => r, Err(_) => Err("panicked on a valid loop connection".into()) }
+    };
+    if cmd == "run" {
+        let v: Vec<u64> = arg.split(|c: char| !c.is_ascii_digit()).filter(|x| !x.is_empty()).filter_map(|x| x.parse().ok()).collect();
+        if v.len() != 7 { return None; }
+        let input = fmt(v[0] as usize, v[1] as usize, v[2] as usize, v[3] as usize, v[4] != 0, v[5] as usize, v[6]);
+        return Some(match one(v[0] as usize, v[1] as usize, v[2] as usize, v[3] as usize, v[4] != 0, v[5] as usize, v[6]) {
+            Ok(()) => format!("{{\"failed\":false,\"input\":{}}}", input),
+            Err(e) => format!("{{\"failed\":true,\"input\":{},\"detail\":{:?}}}", input, e),
+        });
+    }
+    let mut tried = 0usize;
+    for n in 1..=4usize { for outof in 0..n { for into in 0..=outof { for k in 1..=3usize { for s in [false, true] { for acc in 0..5usize { for seed in 0..3u64 {
+        tried += 1;
+        if let Err(e) = one(n, into, outof, k, s, acc, seed) {
+            return Some(format!("{{\"failed\":true,\"tried\":{},\"input\":{},\"detail\":{:?}}}", tried, fmt(n, into, outof, k, s, acc, seed), e));
+        }
+    }}}}}}}
+    Some(format!("{{\"failed\":false,\"tried\":{}}}", tried))
 }
